@@ -196,6 +196,12 @@ func checkC18(c *Check) {
 		"stores are per filter (or take no single filter's timeouts)",
 		"a store shared between filters is constructed with the session timeouts of one filter (memory: the first OIDC filter; Redis: the last filter per server URI): the other filters' configured timeouts do not govern their sessions")
 
+	// a filter's sessions live in the store Get() returns for it under that filter's own timeouts: the shared memory store
+	// is built for a memory filter (C10.R4), never as a stand-in for a Redis filter
+	if c.ID == "C18" {
+		importObls(c, "C10", checkC10, "C18.R2", func(o *Obligation) bool { return strings.HasPrefix(o.Key, "C10.R4/memory-store-for-a-memory-filter") })
+	}
+
 	// ---- R3
 	n := 0
 	for _, fn := range R.HandlerFuncs {
@@ -524,6 +530,38 @@ func checkC19(c *Check) {
 		}
 	}
 	c.Obl(okRet, "C19.R1", "ignore-branches", P.Pos(rec.Pos()), "ignore branches return nil (or the fetch error)", "an ignore branch of Reconcile returns an unexpected error")
+	// a failed fetch that is not `not found` is handed back to the controller runtime, which retries it: a transient
+	// read error on the reconcile that a rotation triggered must not end in "nothing to do"
+	if getC != nil {
+		nFail := 0
+		for i, r := range returnsOf(rec) {
+			failed := false
+			for cond, pol := range ff.At(r) {
+				if bo, isB := cond.(*ssa.BinOp); isB && isNilConst(bo.Y) && (bo.Op == token.NEQ) == pol {
+					if gc, _, isC := asCall(resolveCell(stripConv(bo.X))); isC && gc == getC {
+						failed = true
+					}
+				}
+			}
+			if !failed {
+				continue
+			}
+			nFail++
+			okErr := false
+			for _, l := range Leaves(r.Results[1], leafOpts{noConcat: true}) {
+				l = resolveCell(stripConv(l))
+				if ic, _, ok := asCall(l); ok && strings.HasSuffix(funcID(calleeOf(ic).Obj), "IgnoreNotFound") {
+					okErr = true
+				}
+				if gc, _, ok := asCall(l); ok && gc == getC {
+					okErr = true
+				}
+			}
+			c.Obl(okErr, "C19.R1", fmt.Sprintf("fetch-failure-is-returned/return#%d", i+1), P.Pos(instrPos(r)), "a failed fetch returns IgnoreNotFound(err) (or the error itself)",
+				"after a failed fetch of the Secret Reconcile returns no error: a transient read failure is never retried and the filters keep the stale secret")
+		}
+		c.Obl(nFail >= 1, "C19.R1", "fetch-failure-returns", P.Pos(rec.Pos()), fmt.Sprintf("%d return(s) behind a failed fetch", nFail), "no return behind the failed fetch found (anchor lost)")
+	}
 	// … and an update is ignored only for the enumerated reasons: every return that can be reached without the write lies
 	// behind the failed fetch, a name that is not in the index, a Secret that is being deleted, or a missing / empty
 	// datum. A further reason to skip (a version or content comparison, a rate limit) keeps a rotation from the filters.
@@ -645,6 +683,17 @@ func checkC19(c *Check) {
 		for _, v := range vals {
 			if dataLk != nil && dataDeps(v)[extractOf(dataLk, 0)] {
 				valOK = true
+			}
+			// byte for byte: the datum converted to a string, nothing else (a trimmed, lower-cased, decoded or re-encoded
+			// value is not the credential the Secret holds)
+			if dataLk != nil {
+				exact := true
+				for _, l := range Leaves(v, leafOpts{noConcat: true}) {
+					if resolveCell(stripConv(l)) != extractOf(dataLk, 0) && resolveCell(stripConv(l)) != ssa.Value(dataLk) {
+						exact = false
+					}
+				}
+				c.Obl(exact, "C19.R2", "value-is-the-datum-itself", P.Pos(instrPos(wr)), "the written value is string(datum)", "the value written into the filters is computed from the Secret's datum ("+descDepth(resolveCell(stripConv(v)), 3)+") instead of being the datum itself")
 			}
 		}
 	}
